@@ -250,5 +250,48 @@ class GotAnnouncements(Spec):
         return [("canary", z3.BoolVal(out.post["processed"] == []))]
 
 
+def key_identity_failures():
+    """native run-time contract with the real ed25519 code: an announcement is attributed to ONE key identity -- any other
+    spelling of the key field (whitespace, case, padding, doubled prefix) is rejected or mapped to the canonical string, so the
+    per-key freshness rule cannot be side-stepped by re-presenting an old announcement under a "new" key"""
+    from allmydata.crypto import ed25519
+    from allmydata.introducer.common import sign_to_foolscap, unsign_from_foolscap
+    bad, n = [], 0
+    for i in range(6):
+        sk, vk = ed25519.create_signing_keypair()
+        ann_t = sign_to_foolscap({"service-name": "storage", "seqnum": i, "nickname": "n%d" % i}, sk)
+        (msg, sig, key) = ann_t
+        (ann, key_vs) = unsign_from_foolscap(ann_t)
+        n += 1
+        if key_vs != key:
+            bad.append({"variant": "genuine", "returned_key": repr(key_vs)})
+        for name, variant in (("trailing-space", key + b" "), ("trailing-newline", key + b"\n"), ("trailing-tab", key + b"\t"), ("leading-space-after-prefix", b"v0- " + key[3:]),
+                              ("upper-case", b"v0-" + key[3:].upper()), ("padded", key + b"="), ("trailing-crlf", key + b"\r\n")):
+            n += 1
+            try:
+                (ann2, key2) = unsign_from_foolscap((msg, sig, variant))
+            except Exception:       # noqa
+                continue
+            if key2 != key:
+                bad.append({"variant": name, "presented_key": repr(variant[-12:]), "attributed_to": repr(key2[-12:])})
+    return bad, n
+
+
+def extra_checks(rep, tier):
+    bad, n = key_identity_failures()
+    name = "KeyIdentity:an-accepted-announcement-is-attributed-to-the-canonical-string-of-the-key-that-signed-it"
+    rep.obligations += 1
+    rep.bounded_obligations += 1
+    rep.paths += n
+    rep.sym_paths += n
+    rep.bounds.append("key identity: 6 fresh ed25519 keys x (genuine + 7 respellings of the key field), real sign/unsign (%d announcements, native)" % n)
+    if not bad:
+        rep.discharged += 1
+        rep.discharged_names.add(name)
+        return
+    rep.violations.append({"property": "C34", "contract": "KeyIdentity", "obligation": name, "status": "runtime", "inputs": bad[0],
+                           "native_outcome": "%d of %d announcements are accepted under a non-canonical key identity; first: %r" % (len(bad), n, bad[0]), "confirmed_on_real_code": True})
+
+
 def contracts(tier):
     return [Unsign(), ProcessAnnouncement(), GotAnnouncements()]
